@@ -537,11 +537,11 @@ Definition f11_witness : xdoc :=
       XElem [x61] [x79] [] [XText [x32]]]].
 
 Theorem xml_prefix_refuted :
-  exists d, ns_wf d = true /\ uri_single_prefix d = false /\
+  exists d, ns_wf d = true /\ lastwins_ok d = false /\ uri_single_prefix d = false /\
     exists e t, xbuild (xtokens d) = XRNode e t /\ tree_eqb t (xdom_doc d) = false /\
       In (T ElementNode [x79] (FXml [x62] [x75]) [T TextNode [x32] (FXml [] []) []]) (t_kids e).
 Proof.
-  exists f11_witness. split; [reflexivity|]. split; [reflexivity|].
+  exists f11_witness. split; [reflexivity|]. split; [reflexivity|]. split; [reflexivity|].
   eexists _, _. split; [vm_compute; reflexivity|]. split; [reflexivity|].
   simpl. right. right. left. reflexivity.
 Qed.
